@@ -9,6 +9,7 @@
 import Generated.DistSrcRun
 import Generated.SparseSrcRun
 import Generated.LayoutSrcRun
+import Generated.UmapSrcRun
 
 open Umap SrcRun
 
@@ -27,6 +28,20 @@ def parseArgs (t : Array String) : Option (List Arg) := Id.run do
       let mut v : Array Nat := #[]
       for j in [0:len] do v := v.push (t[i+2+j]!).toNat!
       out := out.push (.i v.toList); i := i + 2 + len
+    else if k == "z" then
+      let len := (t[i+1]!).toNat!
+      let mut v : Array Int := #[]
+      for j in [0:len] do v := v.push (t[i+2+j]!).toInt!
+      out := out.push (.z v.toList); i := i + 2 + len
+    else if k == "im" then
+      let r := (t[i+1]!).toNat!
+      let c := (t[i+2]!).toNat!
+      let mut rows : Array (List Nat) := #[]
+      for a in [0:r] do
+        let mut v : Array Nat := #[]
+        for j in [0:c] do v := v.push (t[i+3+a*c+j]!).toNat!
+        rows := rows.push v.toList
+      out := out.push (.im rows.toList); i := i + 3 + r * c
     else if k == "v" then
       let len := (t[i+1]!).toNat!
       let mut v : Array Float := #[]
@@ -45,7 +60,7 @@ def parseArgs (t : Array String) : Option (List Arg) := Id.run do
   return some out.toList
 
 def wellFormed (t : Array String) : Bool :=
-  t.size ≥ 2 && (t.toList.drop 1).all (fun s => s == "s" || s == "v" || s == "m" || s == "n" || s == "i" || s.toNat?.isSome)
+  t.size ≥ 2 && (t.toList.drop 1).all (fun s => s == "s" || s == "v" || s == "m" || s == "n" || s == "i" || s == "z" || s == "im" || s.toInt?.isSome || s.toNat?.isSome)
 
 def step (line : String) : String :=
   let t := (line.trimAscii.toString.splitOn " ").toArray
@@ -54,7 +69,8 @@ def step (line : String) : String :=
   | some a =>
     let r := run t[0]! a
     let r := if r == ["bad-op"] then runSparse t[0]! a else r
-    " ".intercalate (if r == ["bad-op"] then runLayout t[0]! a else r)
+    let r := if r == ["bad-op"] then runLayout t[0]! a else r
+    " ".intercalate (if r == ["bad-op"] then runUmap t[0]! a else r)
   | none => "bad-op"
 
 partial def loop (h : IO.FS.Stream) : IO Unit := do
